@@ -36,7 +36,7 @@ ASSUMPTIONS = [
 
 @st.composite
 def _case(draw, tier):
-    kind = draw(st.sampled_from(["g1", "g1r", "g1r", "g2", "g2", "loop", "nested", "nestscope", "twocycles", "ordprod"]))
+    kind = draw(st.sampled_from(["g1", "g1r", "g1r", "g2", "g2", "loop", "nested", "nestscope", "twocycles", "ordprod", "mutexsel"]))
     c = {"kind": kind}
     if kind == "g1":
         topo = draw(gen.g1_nodes(2, 7))
@@ -45,6 +45,11 @@ def _case(draw, tier):
             earlier = [o for x in topo[:j] for o in x["outs"] if o not in topo[j]["params"]]
             if earlier and prob(draw, 0.2):
                 topo[j]["wait_for"] = [draw(st.sampled_from(earlier))]
+        # some nodes are INTERRUPTS (auto-answering handlers): what they produce is an ordinary value name; when an entry point
+        # or a selection puts the interrupt out of scope, the names it would have produced are inputs like any other
+        for x in topo:
+            if len(x["outs"]) == 1 and x["params"] and not x.get("wait_for") and prob(draw, 0.15):
+                x.update({"k": "interrupt", "mode": "auto", "answer": ["ans", x["name"]]})
         c["nodes"] = draw(gen.permuted(topo))
     elif kind == "ordprod":
         # two ORDERED producers of one name: A -> (v, ow) and B(ow | wait_for A's signal, own input) -> v.  Selecting v keeps both in
@@ -78,6 +83,30 @@ def _case(draw, tier):
         sel = [v] + ([draw(st.sampled_from(others))] if others and prob(draw, 0.3) else [])
         c["nodes"] = draw(gen.permuted(topo + [B]))
         c["op"] = {"v": v, "A": A["name"], "how": how, "sel": list(draw(st.permutations(sel)))}
+    elif kind == "mutexsel":
+        # `res` has two mutually exclusive producers: p1 directly below the gate, p2 at the end of a chain below the gate's other
+        # target; a consumer chain follows.  Selecting `res` (or what follows it) keeps BOTH branches and the gate in scope.
+        def own(nm):
+            return [f"x_{nm}"] if prob(draw, 0.7) else []
+        nodes = [{"k": "func", "name": "p1", "params": own("p1"), "defaults": {}, "outs": ["res"]},
+                 {"k": "func", "name": "t", "params": own("t") or ["x_t"], "defaults": {}, "outs": ["u0"]}]
+        prev = "u0"
+        for j in range(draw(st.integers(0, 2))):
+            nodes.append({"k": "func", "name": f"m{j}", "params": [prev] + own(f"m{j}"), "defaults": {}, "outs": [f"u{j + 1}"]})
+            prev = f"u{j + 1}"
+        nodes.append({"k": "func", "name": "p2", "params": [prev, "x_p2"], "defaults": {}, "outs": ["res"]})
+        sel = "res"
+        for j in range(draw(st.integers(0, 2))):
+            nodes.append({"k": "func", "name": f"c{j}", "params": [sel] + own(f"c{j}"), "defaults": {}, "outs": [f"f{j}"]})
+            sel = f"f{j}"
+        gp = ["flag"] if prob(draw, 0.8) else []
+        if draw(st.booleans()):
+            nodes.append({"k": "ifelse", "name": "gate", "params": gp, "defaults": {}, "t": "p1", "f": "t", "table": [True, False], "default_open": draw(st.booleans())})
+        else:
+            nodes.append({"k": "route", "name": "gate", "params": gp, "defaults": {}, "targets": draw(st.permutations(["p1", "t"])), "fallback": None, "multi": False, "table": ["p1", "t"],
+                          "default_open": draw(st.booleans())})
+        c["nodes"] = draw(gen.permuted(nodes))
+        c["ms"] = {"sel": [sel]}
     elif kind == "g1r":
         # node objects are first used in a graph, then renamed by a bijection (swaps included) and used in a second graph
         topo = draw(gen.g1_nodes(2, 6))
@@ -131,6 +160,8 @@ def _case(draw, tier):
 
         c["loop"] = draw(loop_case(tier))["loop"]
         c["loop"]["entry"] = 0
+        for k_ in ("entry_set", "entry_chain", "pre_entry"):
+            c["loop"].pop(k_, None)  # (entry-point sets on a cycle are C04's / C16's subject; here the configuration is drawn below)
         if prob(draw, 0.5):
             c["loop"]["nested"] = True
             c["loop"]["k"] = draw(st.integers(1, 3))
@@ -363,6 +394,12 @@ def check_case(case, ev):
             g = g.unbind(*ub)
             labels.add("unbind")
     sel = None
+    if kind == "mutexsel":
+        case = {**case, "select": None, "entry": None}
+        sel = list(case["ms"]["sel"])
+        g = g.select(*sel)
+        nfeat += 1
+        labels.update({"select", "exclusive_producers_one_below_a_chain"})
     if kind == "ordprod":
         case = {**case, "select": None, "entry": None}
         sel = list(case["op"]["sel"])
@@ -401,6 +438,13 @@ def check_case(case, ev):
     if len(sp.required) != len(req) or len(sp.optional) != len(opt):
         raise Violation("c08.duplicates", f"required={sp.required} optional={sp.optional}")
     # ---- (e) reference classification for gate-free DAGs
+    if kind == "mutexsel":
+        allp = {q for x in case["nodes"] for q in x.get("params", [])} - {o for x in case["nodes"] for o in x.get("outs", [])}
+        want_req = allp - set(sp.bound)
+        if req != want_req or (opt - set(sp.bound)) or sp.entrypoints:
+            raise Violation("c08.reference_spec", f"`res` comes from p1 or, through the chain below the gate's other target, from p2; select={sel}, nodes listed {[x['name'] for x in case['nodes']]}: "
+                            f"reported required={sorted(req)} optional={sorted(opt)}; every node lies upstream of the selection through one of the producers: required={sorted(want_req)}",
+                            what="required", exclusive_producers=True)
     if kind == "ordprod":
         # reference: the later producer under a private output name (so producers are unique), in scope together with the earlier one
         v = case["op"]["v"]
@@ -478,7 +522,7 @@ def check_case(case, ev):
     if g.outputs and kind != "loop":
         outs = list(g.outputs)
         S = list(dict.fromkeys(outs[i % len(outs)] for i in case["rt_select"]))
-        if kind == "ordprod":
+        if kind in ("ordprod", "mutexsel"):
             S = list(sel)
         gs = g.select(*S)
         v2, kw2, ok2 = _check_sufficiency_rt(g, gs, S, ctx, case["ep_pick"], ev)
